@@ -128,3 +128,12 @@ Example C14_example :
   = [OUnit; OAdded 7 1; OObj 7 1 1; OUnit; OCommitted 7 5; OObj 7 0 5; OUnit; OUpdated 7 5; ODiscarded 7; OMissing 7; ONat 0]
   /\ undisturbed 0 7 0 (run [New 7 1; Add 0 0; Get 0 7]) [Get 1 7; SetVal 1 5; Commit 1; Iter 0; Drop 1].
 Proof. vm_compute. repeat split; reflexivity. Qed.
+
+(* Non-vacuity of C14_identity_threads: an add and a get of the same id racing on one instance
+   (add: to the lock, critical section | get: load, to the lock, critical section): the get
+   returns the very object that was added. *)
+Example C14_threads_example :
+  let s0 := run [New 1 3] in
+  let r := run_sched (TAdd 0) TGet 0 1 [false; false; true; true; true; false; true] s0 pc0 pc0 in
+  targets 1 s0 (TAdd 0) /\ tobj (TAdd 0) (snd (fst r)) = Some 0 /\ tobj TGet (snd r) = Some 0.
+Proof. vm_compute. split; [exists (mkobj 1 3 SNone); split; reflexivity|split; reflexivity]. Qed.
